@@ -1,8 +1,13 @@
 /- Driver for C17: line = "(kind behaviour (op …) [shape])<TAB>implObs"; see harness/props/c17.
+   A schedule element `(par A B)` (request B delivered while A is being served) makes the model's answer a SET of
+   observations (`runI`): MONITOR — the model column repeats the implementation's observation when it is one of
+   them, and otherwise shows the first one (the two requests served one after the other). The Spec column is the
+   same `SpecAll`, read request by request (`SpecAllI`).
    The command shape (sh | sha | ex | exa) is parsed and validated but has no influence on the model run
    (`runIn`): the implementation's observation is compared with the same model observation for every shape. -/
 import ControlModel.Model.ExecTask
 import ControlModel.Spec.C17
+import ControlModel.Model.ExecOverlap
 
 namespace Driver.C17
 open ExecTask
@@ -81,19 +86,94 @@ def judge (k : Kind) (b : Beh) (shp : Shape) (ops : List Op) (impl : String) : S
     s!"{model}\t{if spec then 1 else 0}\t{if spec then "-" else hypOf k b ops o}"
   | none => s!"{model}\t0\t-"
 
+/-! ### schedules with overlapping requests -/
+
+def iresSx : IRes → SExp
+  | .one r => resSx r
+  | .par ra rb => .list [.atom "par", resSx ra, resSx rb]
+
+def iobsSx (o : IObs) : SExp :=
+  .list [.list (.atom "res" :: o.res.map iresSx), .list (.atom "emits" :: o.emits.map emitSx),
+         .list [.atom "alive", match o.alive with | some b => SExp.ofBool b | none => .atom "-"],
+         .list (.atom "sigs" :: o.sigs.map (fun s => .atom s.name))]
+
+def parseIRes : SExp → Option IRes
+  | .list [.atom "par", a, b] => do pure (.par (← parseRes a) (← parseRes b))
+  | x => (parseRes x).map .one
+
+def parseIObs : SExp → Option IObs
+  | .list [.list (.atom "res" :: rs), .list (.atom "emits" :: es), .list [.atom "alive", a], .list (.atom "sigs" :: sg)] => do
+    let res ← rs.mapM? parseIRes
+    let emits ← es.mapM? parseEmit
+    let alive ← match a with
+      | .atom "-" => some none
+      | x => (x.bool?).map some
+    let sigs ← sg.mapM? (fun x => do Sig.parse? (← x.str?))
+    pure { res := res, emits := emits, alive := alive, sigs := sigs }
+  | _ => none
+
+def parseItem : SExp → Option Item
+  | .list [.atom "par", .atom a, .atom b] => do pure (.par (← Op.parse? a) (← Op.parse? b))
+  | .atom a => (Op.parse? a).map .one
+  | _ => none
+
+/-- The known-finding class of an input with overlaps, chosen by the conjunct that failed. The classes of the
+    sequential model are read on every element (an overlap meets a class if either of its requests does in the
+    state in which the pair arrives); two classes are about overlaps as such. -/
+def hypOfI (k : Kind) (b : Beh) (items : List Item) (o : IObs) : String :=
+  let nv (P : St → Op → Bool) : Bool := !neverI codeCfg (liftReq P) k b items
+  let nvp (Q : St → Op → Op → Bool) : Bool := !neverI codeCfg (liftPair Q) k b items
+  let (ops, fo) := o.flat items
+  if !noStuck fo.res then
+    if nvp overlapKillSpawn then "kill_overlaps_start_panics"
+    else if nv killNoRpc then "kill_unready_ctl_panics"
+    else "-"
+  else if !oneTerminal fo.emits then
+    if nvp overlapKillKill then "overlapping_kills_two_terminals"
+    else "-"
+  else if !nothingAfter fo.emits then
+    if nv killLive then "basic_kill_spares_child"
+    else if nvp overlapKillSpawn then "kill_overlaps_start_panics"
+    else "-"
+  else if !noSurvivors ops fo then
+    if nv killLive then "basic_kill_spares_child"
+    else if nvp overlapKillSpawn then "kill_overlaps_start_panics"
+    else if nv killHelpers then "ctl_kill_spares_helpers"
+    else "-"
+  else if !stopTerminates k ops fo then
+    if nv stopSpares then "basic_stop_spares_helpers"
+    else "-"
+  else "-"
+
+def judgeI (k : Kind) (b : Beh) (shp : Shape) (items : List Item) (impl : String) : String :=
+  if !validCase k b || !validShape k b shp || !items.all (Item.ok k) then "BADINPUT\t0\t-" else
+  let models := (runI codeCfg k b items).map (fun o => toString (iobsSx o.obs))
+  let model := if models.contains impl then impl else models.headD "REJECT:no-model-run"
+  match (SExp.parse impl).bind parseIObs with
+  | some o =>
+    let spec := SpecAllI k items o
+    s!"{model}\t{if spec then 1 else 0}\t{if spec then "-" else hypOfI k b items o}"
+  | none => s!"{model}\t0\t-"
+
 def processLine (line : String) : String :=
   match SExp.fields line with
   | [inp, impl] =>
     let go (ks bs : String) (opsx : List SExp) (shape : Option String) : String :=
-      match Kind.parse? ks, Beh.parse? bs, opsx.mapM? (fun x => do Op.parse? (← x.str?)) with
-      | some k, some b, some ops =>
-        match shape with
-        | none => judge k b (Shape.default b) ops impl
-        | some t =>
-          match Shape.parse? t with
-          | some shp => judge k b shp ops impl
-          | none => "BADINPUT\t0\t-"
-      | _, _, _ => "BADINPUT\t0\t-"
+      match Kind.parse? ks, Beh.parse? bs with
+      | some k, some b =>
+        let shp? : Option Shape := match shape with
+          | none => some (Shape.default b)
+          | some t => Shape.parse? t
+        match shp? with
+        | none => "BADINPUT\t0\t-"
+        | some shp =>
+          match opsx.mapM? (fun x => do Op.parse? (← x.str?)) with
+          | some ops => judge k b shp ops impl                    -- a plain schedule: one model run
+          | none =>
+            match opsx.mapM? parseItem with
+            | some items => judgeI k b shp items impl             -- overlaps: a set of model runs
+            | none => "BADINPUT\t0\t-"
+      | _, _ => "BADINPUT\t0\t-"
     match SExp.parse inp with
     | some (.list [.atom ks, .atom bs, .list opsx]) => go ks bs opsx none
     | some (.list [.atom ks, .atom bs, .list opsx, .atom t]) => go ks bs opsx (some t)
